@@ -53,7 +53,10 @@ Lemma ex_multi_writer_gap :
   reaches (sys_n skel Writer 2 false) (fun st => negb (inv_multi (sys_n skel Writer 2 false) st)).
 Proof. apply found_reaches. vm_cast_no_check (eq_refl true). Qed.
 
-(* the full deadline-change statement fails on the current source (consequence of F10-F12) *)
-Lemma deadline_full_counterexamples :
-  reaches (sys_1 skel Accepter false) (fun st => negb (inv_deadline_seen (sys_1 skel Accepter false) st)).
+(* non-vacuity of the deadline-change statement for Accept: a parked Accept whose timer was re-armed
+   for a deadline set while it was parked is reachable *)
+Lemma ex_accept_rearmed :
+  reaches (sys_1 skel Accepter false)
+          (fun st => existsb (fun t => at_select (sys_1 skel Accepter false) t && timer_follows t &&
+                                       match lrd (sh st) with DFuture => true | _ => false end) (ths st)).
 Proof. apply found_reaches; vm_cast_no_check (eq_refl true). Qed.
